@@ -112,6 +112,8 @@ def dispatch_tables():
     chain = next((s for s in disp.body if isinstance(s, ast.If) and _is_method_test(s.test)), None)
     if chain is None:
         raise Untranslatable("no if-chain on method")
+    if any(isinstance(s_, ast.If) and s_ is not chain and _is_method_test(s_.test) for s_ in ast.walk(disp) if s_ not in _orelse_chain(chain)):
+        raise Untranslatable("dispatcher is not ONE if/elif chain on method (several separate tests)")
     branches, else_raises = [], False
     node = chain
     while True:
@@ -133,6 +135,10 @@ def dispatch_tables():
             and ast.unparse(rest[0].body[0].value) in ("max(0.0, cmi)", "max(0, cmi)", "max(cmi, 0.0)", "max(cmi, 0)")
             and not rest[0].orelse and isinstance(rest[1], ast.Return) and ast.unparse(rest[1].value) == "cmi"):
         floor_ok = True
+    if not floor_ok:
+        # only the recognised floor is translated; any other way of writing it (or of not having it) is decided by the correspondence
+        # (dispatcher == max(0, named estimator) on every sampled call), never by a table entry
+        raise Untranslatable("floor is not `if np.isfinite(cmi): return max(0.0, cmi)` / `return cmi` after the chain")
     # Z-is-None fallbacks
     fallback = []
     for name, fn in funcs.items():
@@ -146,6 +152,15 @@ def dispatch_tables():
             "accepts": sorted((k, v["settings"]) for k, v in sigs.items() if k != "conditional_mutual_information"),
             "else_raises": else_raises, "floor_shape": floor_ok,
             "dispatcher_defaults": _defaults(disp)}
+
+
+def _orelse_chain(node):
+    """the If nodes of an if/elif chain starting at `node`"""
+    out = [node]
+    while len(node.orelse) == 1 and isinstance(node.orelse[0], ast.If):
+        node = node.orelse[0]
+        out.append(node)
+    return out
 
 
 def _is_method_test(test):
